@@ -11,6 +11,7 @@ FAIL = ['foo', 'nosuchword', '0x', '1a', '"abc', '|fg|', 'then', 'loop', ';', ']
         '#( foo #)', '#( 1 0 / #)', '#( drop #)', '#( "a" 1 + #)', '#( 1 var w #)', '! nosuch', 'var', 'local', ':', 'const c', '2d', '\\( open',
         '"esc\\q"', '1.5.5', 'endof', 'of', '~)', 'immediate',
         # the failing token is inside text the source itself injected: the reader is then two lexers deep
+        '#( 5 ! keep nosuchw #)', '#( 5 ! keep #) nosuchw', '#( 6 ! cnt 1 0 / #)', '#( twice #) nosuchw', '#( 5 ! keep',
         '#( "nosuchw" ~)', '#( "1 nosuchw 2" ~)', '#( "then" ~)', '#( "0x" ~)', '#( "#( nosuchw #)" ~)', '#( "#( \\"zz\\" ~)" ~)', '#( "1 0x" ~) 5']
 TRAIL = ['', ' 2 3', ' : z 9 ;', ' ] then', ' 100 var late_var', ' #( 4 #)', ' "tail" print', ' drop drop', ' ; ]']
 OPEN_END = ['1 if', ': f 1', '#( 1', '[ 1', '{ 1 2', 'begin 1', '3 0 do', '1 case', ': f if 1 then', '#( [ 1 2', '^{ 1']
